@@ -35,6 +35,54 @@ fn advance_ref_iter<T, Iter: Iterator<Item = T>>(iter: &RefCell<Iter>) -> Option
     iter.borrow_mut().next()
 }
 
+/// Replay the input contexts that the traced adapter pulled inside the resolver call itself,
+/// before returning its output iterator: those operations were recorded right after
+/// the call operation, ahead of anything the rest of the query did next.
+fn replay_inputs_pulled_during_call<'trace, V, Vertex>(
+    parent_opid: Opid,
+    inner: &RefCell<btree_map::Iter<'trace, Opid, TraceOp<Vertex>>>,
+    contexts: &mut ContextIterator<'_, V>,
+    input_batch: &mut VecDeque<DataContext<V>>,
+) where
+    Vertex: Clone + Debug + PartialEq + Eq + Serialize + DeserializeOwned + 'trace,
+    V: AsVertex<Vertex>,
+{
+    loop {
+        let upcoming_op = inner.borrow().clone().next();
+        match upcoming_op {
+            Some((_, op))
+                if op.parent_opid == Some(parent_opid)
+                    && matches!(op.content, TraceOpContent::AdvanceInputIterator) => {}
+            _ => break,
+        }
+        advance_ref_iter(inner);
+
+        let input_data = contexts.next();
+
+        let (_, input_op) =
+            advance_ref_iter(inner).expect("Expected to have an item but found none.");
+        assert_eq!(
+            parent_opid,
+            input_op.parent_opid.expect("Expected an operation with a parent_opid."),
+            "Expected parent_opid {parent_opid:?} did not match operation {input_op:#?}",
+        );
+
+        if let TraceOpContent::YieldInto(context) = &input_op.content {
+            let input_context = input_data.unwrap();
+            assert_eq!(
+                context,
+                &input_context.clone().flat_map(&mut |v| v.into_vertex()),
+                "at {input_op:?}"
+            );
+            input_batch.push_back(input_context);
+        } else if let TraceOpContent::InputIteratorExhausted = &input_op.content {
+            assert!(input_data.is_none(), "at {input_op:?}");
+        } else {
+            unreachable!();
+        }
+    }
+}
+
 #[derive(Debug)]
 struct TraceReaderStartingVerticesIter<'trace, Vertex>
 where
@@ -438,11 +486,20 @@ where
             assert_eq!(op_type_name, type_name);
             assert_eq!(property, property_name);
 
+            let mut contexts = contexts;
+            let mut input_batch = VecDeque::new();
+            replay_inputs_pulled_during_call(
+                *root_opid,
+                self.next_op.as_ref(),
+                &mut contexts,
+                &mut input_batch,
+            );
+
             Box::new(TraceReaderResolvePropertiesIter {
                 exhausted: false,
                 parent_opid: *root_opid,
                 contexts,
-                input_batch: Default::default(),
+                input_batch,
                 inner: self.next_op.clone(),
             })
         } else {
@@ -469,11 +526,20 @@ where
             assert_eq!(op_type_name, type_name);
             assert_eq!(*eid, resolve_info.eid());
 
+            let mut contexts = contexts;
+            let mut input_batch = VecDeque::new();
+            replay_inputs_pulled_during_call(
+                *root_opid,
+                self.next_op.as_ref(),
+                &mut contexts,
+                &mut input_batch,
+            );
+
             Box::new(TraceReaderResolveNeighborsIter {
                 exhausted: false,
                 parent_opid: *root_opid,
                 contexts,
-                input_batch: Default::default(),
+                input_batch,
                 inner: self.next_op.clone(),
             })
         } else {
@@ -499,11 +565,20 @@ where
             assert_eq!(from_type, type_name);
             assert_eq!(to_type, coerce_to_type);
 
+            let mut contexts = contexts;
+            let mut input_batch = VecDeque::new();
+            replay_inputs_pulled_during_call(
+                *root_opid,
+                self.next_op.as_ref(),
+                &mut contexts,
+                &mut input_batch,
+            );
+
             Box::new(TraceReaderResolveCoercionIter {
                 exhausted: false,
                 parent_opid: *root_opid,
                 contexts,
-                input_batch: Default::default(),
+                input_batch,
                 inner: self.next_op.clone(),
             })
         } else {
